@@ -234,7 +234,45 @@ def lmfitJac (rows : List (List α)) (npix : Nat) (errs : Option (List α)) (B :
   match B with
   | some b => transpose (matMul m b npix) npix
   | none => transpose m npix
+
+/-! ### `lmfit_jacobian` as a pipeline of regenerated steps (deepening round)
+
+  The translator reads the body of `lmfit_jacobian` as a sequence of steps on the matrix of rows
+  (`Gen.C04.lmjOp k` = code of step `k`, `Gen.C04.lmjLen` = number of steps):
+  1 = `if errs is not None: M /= errs`, 2 = `if B is not None: M = M.dot(B)`, 3 = `M = np.transpose(M)`.
+  `runOps` is the fixed glue that executes such a pipeline; state = (matrix, its number of columns). -/
+
+def lmjOpHand (k : Nat) : Nat := if k = 0 then 1 else if k = 1 then 2 else if k = 2 then 3 else 0
+def lmjLenHand (_k : Nat) : Nat := 3
+def lmjSrcHand (_k : Nat) : Nat := 1
+
+def stepOp (code : Nat) (errs : Option (List α)) (B : Option (List (List α)))
+    (st : List (List α) × Nat) : List (List α) × Nat :=
+  if code = 1 then ((match errs with | some e => divErrs st.1 e | none => st.1), st.2)
+  else if code = 2 then ((match B with | some b => matMul st.1 b st.2 | none => st.1), st.2)
+  else if code = 3 then (transpose st.1 st.2, st.1.length)
+  else st
+
+def runOps (op : Nat → Nat) (len : Nat) (rows : List (List α)) (npix : Nat) (errs : Option (List α))
+    (B : Option (List (List α))) : List (List α) :=
+  ((List.range len).foldl (fun st k => stepOp (op k) errs B st) (rows, npix)).1
 end Sum
+
+/-! ### `covar_errors`: how the Fisher matrix is assembled (deepening round)
+
+  The translator reads, in the C branch and in the B branch of `covar_errors`, the call that
+  produces `J`, the product that defines `covar` and the expression for `onesigma`
+  (`Gen.C04.fis*`): a word over 1 = `Jᵀ`, 2 = `J`, 3 = `inv(C)`; the keyword arguments of the
+  `lmfit_jacobian` call (1 = errs only, 2 = errs and B); 1 for `sqrt(diag(inv(covar)))`.
+  These are the hand fall-backs (the repaired code). -/
+
+def fisWordCHand (k : Nat) : Nat := if k = 0 then 1 else if k = 1 then 3 else if k = 2 then 2 else 0
+def fisWordBHand (k : Nat) : Nat := if k = 0 then 1 else if k = 1 then 2 else 0
+def fisLenCHand (_k : Nat) : Nat := 3
+def fisLenBHand (_k : Nat) : Nat := 2
+def fisJacCHand (_k : Nat) : Nat := 1
+def fisJacBHand (_k : Nat) : Nat := 2
+def fisSigmaHand (_k : Nat) : Nat := 1
 
 /-! ### `covar_errors`: the stderr-assignment loop
 
